@@ -373,9 +373,11 @@ class EIG(BaseRoutine):
                 return results
 
             self.calc_As()
-            mu, N = self.calc_eig(self.As)
 
-            self.mu, self.N = mu, N  # save to `EIG` for writing if needed
+            # save to `EIG` for writing if needed, with the statistics and participation factors that belong to it
+            self.mu, self.pfactors, self.N, self.W = self.calc_pfactor()
+            self._store_stats()
+            mu = self.mu
 
             results[count] = dict(param_values=val, mu=mu,)
 
